@@ -85,6 +85,22 @@ pub fn scenarios(cfg: &str) -> Vec<Vec<Ev>> {
         vec![e(CREATE, 0, 3), e(POLL, 0, 0), e(CREATE, 1, 1), e(POLL, 1, 1), e(CREATE, 2, 1), e(POLL, 2, 0), e(RELEASE, 2, 0), e(POLL, 2, 1), e(DROP_FUT, 1, 0), e(RELEASE, 1, 0), e(POLL, 0, 1)],
         // notified waiter dropped -> forward
         vec![e(CREATE, 0, 1), e(POLL, 0, 0), e(CREATE, 1, 1), e(POLL, 1, 0), e(RELEASE, 1, 0), e(DROP_FUT, 0, 0), e(POLL, 1, 1)],
+        // a notified big request loses a permit to a steal while TWO small requests wait behind it
+        vec![e(CREATE, 0, 3), e(POLL, 0, 0), e(CREATE, 1, 1), e(POLL, 1, 0), e(CREATE, 2, 1), e(POLL, 2, 0), e(RELEASE, 1, 0), e(RELEASE, 2, 0), e(TRY_ACQUIRE, 1, 0), e(POLL, 0, 1), e(POLL, 1, 1), e(POLL, 2, 1)],
+        // as many single-permit waiters as there are slots, all satisfied by one release, polled oldest first
+        {
+            let mut v = vec![];
+            for i in 0..8u8 {
+                v.push(e(CREATE, i, 1));
+                v.push(e(POLL, i, 0));
+            }
+            v.push(e(RELEASE, 4, 0));
+            v.push(e(RELEASE, 3, 0));
+            for i in 0..8u8 {
+                v.push(e(POLL, i, 1));
+            }
+            v
+        },
     ]
 }
 
